@@ -71,7 +71,7 @@ class Lock:
 KINDS = {
     # kind: (CXX, extra flags)
     "plain": ("g++", "-O2 -DNDEBUG"),
-    "asan": ("clang++-14", "-O1 -g -DNDEBUG -fsanitize=address,undefined -fno-sanitize-recover=undefined -fno-omit-frame-pointer"),
+    "asan": ("clang++-14", "-O1 -g -DNDEBUG -D_GLIBCXX_ASSERTIONS -fsanitize=address,undefined -fno-sanitize-recover=undefined -fno-omit-frame-pointer"),
     "tsan": ("clang++-14", "-O1 -g -DNDEBUG -fsanitize=thread"),
 }
 
